@@ -307,9 +307,14 @@ class Check(object):
                 if not any(b[0] == 'proof' for b in self.broken):
                     self.broken.append(('proof', full, 'theorem does not compile or is missing'))
                 continue
-            # primitive machine integers / floats are kernel primitives, not axioms of ours
-            ax = [a for a in ax if not (a.startswith('PrimFloat.') or a.startswith('PrimInt63.')
-                                        or a.startswith('Uint63.') or a in ('float', 'int'))]
+            # primitive machine integers / floats are kernel primitives, not axioms of ours; they are
+            # named in the evidence (coverage.kernel_primitives) as part of the trusted base
+            isprim = lambda a: (a.startswith('PrimFloat.') or a.startswith('PrimInt63.')
+                                or a.startswith('Uint63.') or a in ('float', 'int'))
+            prims = sorted(a for a in ax if isprim(a))
+            if prims:
+                self.extra.setdefault('kernel_primitives', {})[full] = prims
+            ax = [a for a in ax if not isprim(a)]
             bad = [a for a in ax if not any(a.endswith(s) for s in STDLIB_AXIOMS)]
             self.axioms[full] = ax
             if bad:
